@@ -106,3 +106,35 @@ pub fn p_anti_join_static() -> impl Sized {
         source_iter([1u32]) -> [neg]aj;
     }
 }
+
+pub fn p_zip_static_tick() -> impl Sized {
+    dfir_syntax! {
+        z = zip::<'static, 'tick>() -> for_each(|x: (u32, u32)| drop(x));
+        source_iter([1u32, 2]) -> [0]z;
+        source_iter([3u32]) -> [1]z;
+    }
+}
+
+pub fn p_zip_tick_static() -> impl Sized {
+    dfir_syntax! {
+        z = zip::<'tick, 'static>() -> for_each(|x: (u32, u32)| drop(x));
+        source_iter([1u32, 2]) -> [0]z;
+        source_iter([3u32]) -> [1]z;
+    }
+}
+
+pub fn p_join_static_tick() -> impl Sized {
+    dfir_syntax! {
+        j = join::<'static, 'tick>() -> for_each(|x: (u32, (u32, u32))| drop(x));
+        source_iter([(1u32, 1u32)]) -> [0]j;
+        source_iter([(1u32, 2u32)]) -> [1]j;
+    }
+}
+
+pub fn p_join_tick_static() -> impl Sized {
+    dfir_syntax! {
+        j = join::<'tick, 'static>() -> for_each(|x: (u32, (u32, u32))| drop(x));
+        source_iter([(1u32, 1u32)]) -> [0]j;
+        source_iter([(1u32, 2u32)]) -> [1]j;
+    }
+}
